@@ -130,6 +130,21 @@ pub fn run(ctx: &Ctx, rep: &mut Report) {
             }
         }
     }
+    // every residue of the shard size modulo 64 (and the sizes just above one and two blocks) on configurations with
+    // several chunks on the transformed side, where shard-size residue x rate x chunk position can interact
+    let res_cfgs: Vec<(usize, usize)> = if ctx.thorough() { vec![(20, 12), (12, 20), (31, 17), (17, 31), (9, 23)] } else { vec![(20, 12), (12, 20), (31, 17)] };
+    for (ci, &(k, r)) in res_cfgs.iter().enumerate() {
+        for b in (1..=65usize).map(|x| 2 * x) {
+            let fast = engines_fast();
+            for (ki, codec) in ["high", "low"].into_iter().enumerate() {
+                let engs: Vec<&'static str> = if ctx.thorough() { fast.clone() } else { vec![fast[(ci + ki + b / 2) % fast.len()]] };
+                for eng in engs {
+                    cases.push(Kv::new().with("eng", eng).with("codec", codec).with("k", k).with("r", r).with("bytes", b).with("soil", soil).with("seed", seed));
+                }
+            }
+        }
+    }
+    rep.bound("residue_cfg", J::s(format!("{res_cfgs:?} x {{high,low}} x every even shard size 2..=130 (every residue modulo 64 in the first, second and third block)")));
     rep.bound("mid_cfg", J::s(format!("{mid:?} x {{high,low}} with shard sizes 34, 130, 2: additionally every single missing original (all recovery shards given / one given)")));
     // configurations on the edge of the envelope (work area of exactly 65536 positions) with short final blocks
     let edge: Vec<(usize, usize, &str)> = vec![(65532, 4, "high"), (65528, 8, "def"), (4, 65532, "low"), (8, 65528, "def"), (65535, 1, "def"), (1, 65535, "def")];
